@@ -38,6 +38,17 @@ Clauses
   C16.nop.other  any other statement gives the same outcome (rows, rowcount, description, exception, final state) as
                  on an instance created without the option
 
+Classes (deterministic, from the input shape and from what one-by-one execution did; never from values/messages)
+  LIT    tmpl=<template>,lit=<literal id>                       (all styles / cursor classes of a literal together)
+  KIND   kind=<statement kind>
+  LIST   C16.failure: list:unparsable=<none|first-failure|after-first-failure>   (where the statement that does not
+         parse stands relative to the first statement that fails one by one);  C16.digest:
+         list:unparsable=<none|present>,<effect-before|no-effect-before>   (do the statements before the first
+         failing one leave a net effect: net_effect(), a 10-line model of begin/commit/rollback);  else list:no-failure
+  EMPTY  text=<token kinds present>
+  NOP    path=<execute|execute_string>,params=<yes|no>,patset=<id>,without-option=<ok|parse-error|error>
+         (how the statement fares on an instance without the option)
+
 Not demanded
   * the message text of exceptions (parser messages carry line/column of the whole text; engine messages quote the
     re-generated statement);
